@@ -19,7 +19,7 @@ from .. import core, tplgen
 from .. import render_common as rc
 
 PROP = "C01"
-THEOREMS = ["unfilled_slot_renders_its_default_content_in_trees", "C01_full_partial_component_trees_compose_in_order", "fill_choice_named", "fill_choice_default", "is_filled_iff_provided", "is_filled_path", "implicit_default_fill",
+THEOREMS = ["slot_renders_its_fill_else_its_default_in_trees", "fills_of_a_tag_body_in_trees", "unfilled_slot_renders_its_default_content_in_trees", "C01_full_partial_component_trees_compose_in_order", "fill_choice_named", "fill_choice_default", "is_filled_iff_provided", "is_filled_path", "implicit_default_fill",
             "fills_next_to_content_raise", "duplicate_fills_raise", "every_executed_fill_is_kept", "required_unfilled_raises",
             "required_filled_or_optional_passes", "two_default_slots_raise", "double_fill_raises", "slot_checks_pass", "C01_full_partial_plain_fragment", "C01_full_partial_leaf_component_django", "C01_full_partial_unfilled_slots_render_their_default_django", "C01_full_partial_template_failure_same_exception_django", "C01_full_partial_named_fill_django"]
 
